@@ -116,6 +116,20 @@ Definition cmd_depth (s : bytes) : bytes :=
   | PPanic _ => str "PANIC-model"
   end.
 
+(* fuzz: verdict of every entry point (C04); a model panic shows as PANIC-model *)
+Definition verdict_of {A} (r : presult A) : bytes :=
+  match r with POk _ => str "ok" | PErr _ _ => str "err" | PPanic _ => str "PANIC-model" end.
+Definition cmd_fuzz (s : bytes) : bytes :=
+  if utf8_valid_b s then
+    let d := verdict_of (parse_document s) in
+    str "utf8=yes doc=" ++ d
+    ++ str " val=" ++ verdict_of (parse_value_raw s)
+    ++ str " key=" ++ verdict_of (parse_key s)
+    ++ str " kp=" ++ verdict_of (parse_key_path s)
+    ++ str " dt=" ++ (match std_from_str s with Some _ => str "ok" | None => str "err" end)
+    ++ str " slice=" ++ d ++ str " toml=" ++ d ++ str " table=" ++ d ++ str " edit_de=" ++ d
+  else str "utf8=no slice=err".
+
 (* val: Value::from_str; decoded value and its Display *)
 Definition cmd_val (s : bytes) : bytes :=
   match parse_value_raw s with
@@ -142,5 +156,6 @@ Definition run_cmd (name : bytes) (args : list bytes) : bytes :=
   else if bytes_eqb name (str "docv") then match args with [s] => cmd_docv s | _ => str "bad-args" end
   else if bytes_eqb name (str "rt") then match args with [s] => cmd_rt s | _ => str "bad-args" end
   else if bytes_eqb name (str "depth") then match args with [s] => cmd_depth s | _ => str "bad-args" end
+  else if bytes_eqb name (str "fuzz") then match args with [s] => cmd_fuzz s | _ => str "bad-args" end
   else if bytes_eqb name (str "docf") then match args with [s] => cmd_docf s | _ => str "bad-args" end
   else str "unknown-command".
